@@ -11,3 +11,10 @@ if bash ../tools/coqbuild.sh; then
 else
   echo "setup: some theories failed to build (see above); the checks that need them will report it" >&2
 fi
+flock -u 9
+cd ..
+# proof phase of every check once: regenerate coq/gen from /repo, compile
+# coq/GenProofs and coq/Properties (the checks re-check whatever changes later)
+PYTHONPATH="${OMEGA_REPO:-/repo}:tools" PYTHONHASHSEED=0 OMEGA_VERIF=1 \
+  timeout 2400 /venv/bin/python tools/warm.py || \
+  echo "setup: warm-up incomplete; the checks compile what is missing" >&2
